@@ -43,6 +43,12 @@ def secs (ms : Nat) : Rat := (ms : Rat) / (groupMsPerSecond : Rat)
 inductive Phase where | running | draining | stopped
   deriving DecidableEq, Repr
 
+/-- What the environment can make a consumer's `shutdown()` do (the handlers in
+    `shutdown_consumers` exist for both): raise synchronously, or return an already failed Deferred
+    (what the real `Consumer.shutdown` does when it is not running or is shutting down already). -/
+inductive Quirk where | none | shutdownRaises | shutdownFails
+  deriving DecidableEq, Repr
+
 /-- One partition consumer created by `on_join_complete`. `held` = it is in `self.consumers`;
     `startFired` = the Deferred returned by its `start()` has fired. -/
 structure Con where
@@ -54,6 +60,7 @@ structure Con where
   phase : Phase
   held : Bool
   startFired : Bool
+  quirk : Quirk := .none
   deriving DecidableEq, Repr
 
 inductive TKind where | rejoin | retry | hb
@@ -135,7 +142,8 @@ inductive Ev where
   | leaveDone (r : Res)
   | consumerDown (cid : Nat) (ok : Bool)
   | consumerErr (cid : Nat) (e : GErr)
-  | fire (id : Nat)
+  | consumerQuirk (cid : Nat) (q : Quirk)
+  | fire (id : Nat) (hbNext : Option Rat)   -- `hbNext`: what `LoopingCall._scheduleFrom` computed (floats), when recorded
   | advance (dt : Rat)
   deriving DecidableEq, Repr
 
@@ -183,11 +191,26 @@ def stopCons (s : St) (cids : List Nat) : Out :=
 def stopConsumers (s : St) : Out := stopCons s (heldCids s)
 
 /-- the loop of `shutdown_consumers()` up to the `DeferredList`: `consumer.shutdown()` for every
-    held consumer; returns the drain. -/
+    held consumer, in order.  A `shutdown()` that raises is answered with `consumer.stop()` at once
+    and its consumer is not waited for; returns the drain (`batch` = all of `current_consumers`,
+    `pending` = the shutdown Deferreds collected). -/
 def beginDrain (s : St) : St × List Ob × Drain :=
-  let cids := heldCids s
-  ({ s with cons := s.cons.map fun c => if c.held then { c with phase := .draining, held := false } else c },
-   cids.map .consumerShutdown, ⟨cids, cids⟩)
+  let heldC := s.cons.filter (·.held)
+  ({ s with cons := s.cons.map fun c =>
+      if c.held then
+        (if c.quirk = .shutdownRaises then { c with phase := .stopped, held := false, startFired := true }
+         else { c with phase := .draining, held := false })
+      else c },
+   heldC.flatMap (fun c => if c.quirk = .shutdownRaises then [.consumerShutdown c.cid, .consumerStop c.cid] else [.consumerShutdown c.cid]),
+   ⟨heldC.map (·.cid), (heldC.filter (fun c => c.quirk != .shutdownRaises)).map (·.cid)⟩)
+
+/-- one of the collected shutdown Deferreds has failed already: the `DeferredList` fails at once -/
+def drainFails (s : St) : Bool := s.cons.any fun c => c.held && c.quirk == .shutdownFails
+
+/-- a `shutdown_consumers()` finished (all shutdown Deferreds fired, or the first failure):
+    on failure every consumer of the batch that is still running is stopped. -/
+def drainDone (s : St) (d : Drain) (ok : Bool) : Out :=
+  if ok then (s, []) else stopCons s d.batch
 
 /-! ## Timers -/
 
@@ -337,8 +360,12 @@ def coordStop (cfg : Cfg) (s : St) (err : Option GErr) (user : Bool) : Out :=
 def stopLoop (cfg : Cfg) (s : St) (err : Option GErr) (user : Bool) : Out :=
   if (heldCids s).isEmpty then coordStop cfg s err user
   else
-    let (s, obs, d) := beginDrain s
-    ({ s with stops := s.stops ++ [⟨d, err, user⟩] }, obs)
+    let failed := drainFails s
+    let r := beginDrain s
+    if failed || r.2.2.pending.isEmpty then
+      -- the DeferredList fires at once; `self.consumers` is empty now, so the loop ends
+      andThen (andThen (r.1, r.2.1) fun s => drainDone s r.2.2 (!failed)) fun s => coordStop cfg s err user
+    else ({ r.1 with stops := r.1.stops ++ [⟨r.2.2, err, user⟩] }, r.2.1)
 
 /-- `ConsumerGroup.stop`: mark that the consumers are being shut down for a stop (so that no
     JoinGroup exchange starts meanwhile), then the loop. -/
@@ -370,8 +397,11 @@ def prepare (s : St) : Out :=
     ({ s with jpc := .hang }, [])
   else if (heldCids s).isEmpty then afterPrepare s
   else
-    let (s, obs, d) := beginDrain s
-    ({ s with jpc := .prepare, prep := d }, obs)
+    let failed := drainFails s
+    let r := beginDrain s
+    if failed || r.2.2.pending.isEmpty then
+      andThen (andThen (r.1, r.2.1) fun s => drainDone s r.2.2 (!failed)) afterPrepare
+    else ({ r.1 with jpc := .prepare, prep := r.2.2 }, r.2.1)
 
 def joinAndSync (s : St) : Out :=
   let s := { s with rejoinWaitDc := none }
@@ -387,11 +417,6 @@ def startConsumers (s : St) (asg : List (Nat × List Int)) : Out :=
       phase := .running, held := true, startFired := false }
   ({ s with cons := s.cons ++ news, nextCid := s.nextCid + tps.length, asg := tps },
    news.map fun c => .consumerStart c.cid c.topic c.part c.gen c.member groupConsumerStartOffset)
-
-/-- a `shutdown_consumers()` finished (all shutdown Deferreds fired, or the first failure):
-    on failure every consumer of the batch that is still running is stopped. -/
-def drainDone (s : St) (d : Drain) (ok : Bool) : Out :=
-  if ok then (s, []) else stopCons s d.batch
 
 /-- the consumer `cid`'s shutdown Deferred fired -/
 def consumerDown (cfg : Cfg) (s : St) (cid : Nat) (ok : Bool) : Out :=
@@ -492,7 +517,12 @@ def step (cfg : Cfg) (s : St) : Ev → Out
       -- on_consumer_error
       if e = .cancelled && (heldCids s).isEmpty then (s, []) else rejoinAfterError cfg s e
     else (s, [.badOp])
-  | .fire id =>
+  | .consumerQuirk cid q =>
+    if s.cons.any (fun c => c.cid = cid && c.phase = .running) then
+      ({ s with cons := s.cons.map fun c => if c.cid = cid && c.phase == .running then { c with quirk := q } else c }, [])
+    else (s, [.badOp])
+  | .fire id hbNext =>
+    if hbNext.any (· < 0) then (s, [.badOp]) else
     match s.timers.filter (·.id == id) with
     | [] => (s, [.badOp])
     | t :: _ =>
@@ -505,7 +535,7 @@ def step (cfg : Cfg) (s : St) : Ev → Out
         let o : Out :=
           if s.stopping || s.rejoinNeeded || s.hbInFlight then (s, [])
           else ({ s with hbInFlight := true }, [.heartbeat s.gen s.member])
-        andThen o fun s => if s.hbRunning then hbSchedule cfg s else (s, [])
+        andThen o fun s => if s.hbRunning then addTimer s .hb (hbNext.getD (hbDelay cfg s)) else (s, [])
   | .advance dt =>
     if dt < 0 then (s, [.badOp]) else ({ s with now := s.now + dt }, [])
 
